@@ -463,10 +463,20 @@ impl ClusterActor {
             .map(|w| w.get())
             .unwrap_or(0);
 
+        // The watermark is the number of confirmed events: the last confirmed sequence is one
+        // below it, and with a watermark of zero nothing is confirmed yet
+        let Some(last_confirmed_sequence) = watermark.checked_sub(1) else {
+            reply_sender.send(Ok(PartitionEvents {
+                events: Vec::new(),
+                has_more: false,
+            }));
+            return;
+        };
+
         // Adjust end_sequence to respect watermark
         let effective_end_sequence = match end_sequence {
-            Some(end) => end.min(watermark),
-            None => watermark,
+            Some(end) => end.min(last_confirmed_sequence),
+            None => last_confirmed_sequence,
         };
 
         debug!(
@@ -480,7 +490,7 @@ impl ClusterActor {
         );
 
         // If start_sequence is beyond watermark, no events to return
-        if start_sequence > watermark {
+        if start_sequence > last_confirmed_sequence {
             reply_sender.send(Ok(PartitionEvents {
                 events: Vec::new(),
                 has_more: false,
@@ -507,8 +517,8 @@ impl ClusterActor {
 
             'iter: while let Some(commits) = match iter
                 .next_batch(
-                    (effective_end_sequence.saturating_sub(last_read_sequence) as usize)
-                        .min(DEFAULT_BATCH_SIZE),
+                    ((effective_end_sequence + 1).saturating_sub(last_read_sequence) as usize)
+                        .clamp(1, DEFAULT_BATCH_SIZE),
                 )
                 .await
             {
@@ -669,7 +679,7 @@ impl ClusterActor {
 
                         // Check if event is beyond watermark (safety check - uses
                         // partition_sequence)
-                        if event.partition_sequence > watermark {
+                        if event.partition_sequence >= watermark {
                             break 'iter;
                         }
 
